@@ -24,7 +24,7 @@ INTERNAL_READS = ["_loss.congestion_window", "_loss.bytes_in_flight", "_close_at
 
 DEFAULT_CFG = {"version": "v1", "cc": "reno", "suite": "", "alpn": ["hq"], "max_data": 1048576,
                "max_stream_data": 1048576, "mds": 1200, "idle": 60.0, "qlog": False, "keylog": True,
-               "s_max_data": None, "s_max_stream_data": None, "datagram": None, "chain": False}
+               "s_max_data": None, "s_max_stream_data": None, "max_streams": None, "datagram": None, "chain": False}
 
 
 def byte(s, o):
@@ -139,6 +139,7 @@ class Sim:
         self.tickets = []
         self.eps["c"] = self.A["connection"].QuicConnection(
             configuration=c, session_ticket_handler=self.tickets.append)
+        self._stream_count_limit(self.eps["c"])
 
     def _make_server(self, odcid):
         c = self._base_config(False)
@@ -150,6 +151,16 @@ class Sim:
             kw = {"session_ticket_fetcher": store.get, "session_ticket_handler": lambda t: store.__setitem__(t.ticket, t)}
         self.eps["s"] = self.A["connection"].QuicConnection(
             configuration=c, original_destination_connection_id=odcid, **kw)
+        self._stream_count_limit(self.eps["s"])
+
+    def _stream_count_limit(self, conn):
+        """aioquic has no configuration option for the stream-count limits it advertises (fixed 128);
+        a small limit is set on the freshly created object before it serialises its transport
+        parameters, to give its *peer* a small limit."""
+        ms = self.cfg.get("max_streams")
+        if ms:
+            conn._local_max_streams_bidi.value = ms
+            conn._local_max_streams_uni.value = ms
 
     # ---------------------------------------------------------------- logging
     def ev(self, kind, **kw):
